@@ -18,6 +18,12 @@
           g1: a line, #include "h0", probe; hl: #line 50, probe)    1
      L    #line 100                                   1
      F    #line 200 "foo.c"                           1
+     W    use of OUT, a macro defined in the header mac.h whose body invokes M   1
+     MB MC MK  ONE statement over 2 lines with a probe (a call) on each line:
+          binary operator / call with arguments on separate lines / comma        2
+     MT   one statement `a ? b : c` over 3 lines, a probe on each               3
+          (the M* probes have no __LINE__; they are observed through .loc only)
+     IM   #include "mac.h" (blank line, #define OUT(t) M(t)); DO = that #define  1
    x line ending LF / CRLF / CR, with or without a terminator on the last line.
 
    Level A (C11 5.1.1.2, 6.10.4, 6.10.8.1): the position of a token is the
@@ -52,6 +58,8 @@
 EXTENDS Integers, Sequences, SequencesExt, FiniteSets, TLC, Json, CSV, IOUtils
 
 CONSTANTS MaxLen,        \* units per main file (between the fixed prologue and epilogue)
+          Pad,           \* number of comment lines between prologue and body (long-file family: the harness sizes
+                         \* them so that line ends fall on and around the 4096-byte read boundaries)
           Kinds,         \* unit alphabet of the main file
           Eols,          \* subset of {"LF", "CRLF", "CR"}
           Seed, Stride,
@@ -61,15 +69,19 @@ CONSTANTS MaxLen,        \* units per main file (between the fixed prologue and 
           Emit
 
 (* ---- units -------------------------------------------------------------- *)
-Hdr == [I0 |-> "h0.h", I2 |-> "h2.h", J1 |-> "g1.h", IL |-> "hl.h"]
+Hdr == [I0 |-> "h0.h", I2 |-> "h2.h", J1 |-> "g1.h", IL |-> "hl.h", IM |-> "mac.h"]
 HdrUnits(name) ==
   CASE name = "h0.h" -> <<"P">>
     [] name = "h2.h" -> <<"B", "C", "P">>
     [] name = "g1.h" -> <<"SN", "I0", "P">>
     [] name = "hl.h" -> <<"P", "L50", "P", "K2", "P">>
+    [] name = "mac.h" -> <<"B", "DO">>
 IsInc(k) == k \in DOMAIN Hdr
-NPhys(k) == CASE k \in {"CS", "K2", "KP", "SN", "SP"} -> 2 [] k \in {"K3", "SN3", "V"} -> 3 [] OTHER -> 1
-ProbeOff(k) == CASE k \in {"P", "U", "V"} -> 0 [] k \in {"KP", "SP"} -> 1 [] OTHER -> -1   \* -1: no probe
+NPhys(k) == CASE k \in {"CS", "K2", "KP", "SN", "SP", "MB", "MC", "MK"} -> 2 [] k \in {"K3", "SN3", "V", "MT"} -> 3 [] OTHER -> 1
+(* physical-line offsets of the probes of a unit, and the suffix that tells them apart *)
+ProbeOffs(k) == CASE k \in {"P", "U", "V", "W"} -> <<0>> [] k \in {"KP", "SP"} -> <<1>>
+                  [] k \in {"MB", "MC", "MK"} -> <<0, 1>> [] k = "MT" -> <<0, 1, 2>> [] OTHER -> <<>>
+Sfx(k, j) == IF Len(ProbeOffs(k)) = 1 THEN "" ELSE <<"a", "b", "c">>[j]
 LineArg(k) == CASE k = "L" -> 100 [] k = "F" -> 200 [] k = "L50" -> 50 [] OTHER -> 0
 Id(tag, k, u) == tag \o k \o ToString(u)      \* probe identity: file tag, unit kind, unit index
 
@@ -80,9 +92,10 @@ RECURSIVE WalkA(_, _, _, _, _, _, _)
 WalkA(units, i, phys, base, name, tag, acc) ==
   IF i > Len(units) THEN acc
   ELSE LET k == units[i] IN
-       IF ProbeOff(k) >= 0
+       IF ProbeOffs(k) # <<>>
        THEN WalkA(units, i + 1, phys + NPhys(k), base, name, tag,
-                  Append(acc, [id |-> Id(tag, k, i), line |-> Presumed(base, phys + ProbeOff(k)), file |-> name, k |-> k, g |-> base # <<>>]))
+                  acc \o [j \in DOMAIN ProbeOffs(k) |->
+                            [id |-> Id(tag, k, i) \o Sfx(k, j), line |-> Presumed(base, phys + ProbeOffs(k)[j]), file |-> name, k |-> k, g |-> base # <<>>]])
        ELSE IF LineArg(k) > 0
        THEN WalkA(units, i + 1, phys + 1, <<LineArg(k), phys>>, IF k = "F" THEN "foo.c" ELSE name, tag, acc)
        ELSE IF IsInc(k)
@@ -105,7 +118,10 @@ UnitLines(k, tag, u) ==       \* physical lines, without terminators
     [] k = "SN3"-> << <<"x", "\\">>, <<"x", "\\">>, <<"x">> >>
     [] k = "SP" -> << <<"x", "\\">>, <<"x", Id(tag, k, u)>> >>
     [] k = "D"  -> << <<"#D">> >>
-    [] k = "U"  -> << <<Id(tag, k, u)>> >>
+    [] k \in {"U", "W"} -> << <<Id(tag, k, u)>> >>
+    [] k \in {"MB", "MC", "MK"} -> << <<"x", Id(tag, k, u) \o "a", "x">>, <<Id(tag, k, u) \o "b", "x">> >>
+    [] k = "MT" -> << <<"x", Id(tag, k, u) \o "a", "x">>, <<Id(tag, k, u) \o "b", "x">>, <<Id(tag, k, u) \o "c", "x">> >>
+    [] k = "DO" -> << <<"#D">> >>
     [] k = "V"  -> << <<Id(tag, k, u)>>, <<"x">>, <<"x">> >>
     [] IsInc(k) -> << <<"#I" \o k>> >>
     [] k \in {"L", "F", "L50"} -> << <<"#" \o k>> >>
@@ -177,7 +193,7 @@ RunI(units, eol, final) ==
   PP(TokenizeFile(units, "m", eol, final), 1, [delta |-> 0, dname |-> "main.c", out |-> <<>>], eol, final, RunA(units))
 
 (* ---- scenarios ------------------------------------------------------------ *)
-Prologue == <<"X", "D", "X">>       \* printf prototype; #define M; int main(void) {
+Prologue == <<"X", "D", "IM", "X">> \o [j \in 1..Pad |-> "C"]   \* prototypes; #define M; #include "mac.h"; int main(void) {; padding
 Epilogue == <<"X">>                  \* return 0; }
 Bodies == UNION {[1..n -> Kinds] : n \in 1..MaxLen}
 ScSet == {[body |-> b, eol |-> e, final |-> f] : b \in Bodies, e \in Eols, f \in BOOLEAN}
@@ -193,7 +209,7 @@ Eval == /\ ~done /\ done' = TRUE /\ sc' = sc
         /\ resA' = RunA(UnitsOf(sc))
         /\ resI' = RunI(UnitsOf(sc), sc.eol, sc.final)
         /\ IF Emit THEN CSVWrite("%1$s", <<ToJson([body |-> sc.body, eol |-> sc.eol, final |-> sc.final,
-                                                    exp |-> resA', nphys |-> Len(PhysLines(UnitsOf(sc), "m"))])>>, IOEnv.OUT)
+                                                    exp |-> resA', nphys |-> Len(PhysLines(UnitsOf(sc), "m")), pad |-> Pad])>>, IOEnv.OUT)
            ELSE TRUE
 Next == Eval
 Spec == Init /\ [][Next]_vars
